@@ -843,6 +843,7 @@ pub fn run_regs(out: &mut Out, seed: u64, _n: u64) {
         out.emit(Ev::new("seg_base_msr").words("r", &[a, b]).words("want", &[v, v + 0x1000]).raw("instrs", &cpu::instrs_json(&ins)));
     }
 
+    run_ctx(out, r);
     // RFLAGS and MXCSR run natively
     for _ in 0..20 {
         out.emit(Ev::new("rflags_rt").str("kind", "raw").words("r", &rflags_id_roundtrip()).w("mask", RFlags::all().bits()));
@@ -877,6 +878,134 @@ pub fn run_regs(out: &mut Out, seed: u64, _n: u64) {
             let got2 = mxcsr::read().bits() as u64;
             out.emit(Ev::new("mxcsr_upd").w("v", v as u64).w("got", got2).w("seen", seen as u64).w("saved", saved.bits() as u64));
             mxcsr::write(saved);
+        }
+    }
+}
+
+// ------------------------------------------------------------------------------------------
+// Calling-context probes (release builds matter): a wrapper inlined into a caller must leave
+// the caller's live state alone - arithmetic flags that are still needed, values held in the
+// argument registers (rdx, rcx, r8, r9), locals kept below the stack pointer (red zone) - and
+// must hand the instruction exactly the operands it was given, also when it is called twice with
+// the same value.  Every probe has six u64 arguments; operands come from the later ones.
+
+macro_rules! ctx_probe {
+    ($name:ident, |$c:ident, $d:ident, $e:ident, $f:ident| $body:block) => {
+        #[inline(never)]
+        fn $name(a: u64, b: u64, $c: u64, $d: u64, $e: u64, $f: u64) -> [u64; 4] {
+            use std::ptr::{read_volatile, write_volatile};
+            let mut scratch = [0u64; 12];
+            for i in 0..12 {
+                unsafe { write_volatile(&mut scratch[i], a.wrapping_add(i as u64)) };
+            }
+            let (s, carry) = a.overflowing_add(b);
+            #[allow(unused_unsafe)]
+            unsafe {
+                $body
+            }
+            let r0 = s.wrapping_add(carry as u64);
+            let mut sum = 0u64;
+            for i in 0..12 {
+                sum = sum.wrapping_add(unsafe { read_volatile(&scratch[i]) });
+            }
+            [r0, $c ^ $d, $e ^ $f, sum]
+        }
+    };
+}
+
+ctx_probe!(ctx_port_w32, |c, d, e, f| {
+    x86_64::instructions::port::Port::<u32>::new(d as u16).write(c as u32);
+    x86_64::instructions::port::Port::<u32>::new(f as u16).write(e as u32);
+});
+ctx_probe!(ctx_port_w16, |c, d, e, f| {
+    x86_64::instructions::port::Port::<u16>::new(d as u16).write(c as u16);
+    x86_64::instructions::port::PortWriteOnly::<u8>::new(f as u16).write(e as u8);
+});
+ctx_probe!(ctx_port_r, |c, d, e, f| {
+    let x = x86_64::instructions::port::Port::<u16>::new(d as u16).read();
+    let y = x86_64::instructions::port::Port::<u8>::new(f as u16).read();
+    let z = x86_64::instructions::port::PortReadOnly::<u32>::new(c as u16).read();
+    std::hint::black_box((x, y, z, e));
+});
+ctx_probe!(ctx_cr4_write, |c, d, e, f| {
+    Cr4::write(Cr4Flags::from_bits_truncate(c));
+    Cr0::write(Cr0Flags::from_bits_truncate(d));
+    std::hint::black_box((e, f));
+});
+ctx_probe!(ctx_efer_update, |c, d, e, f| {
+    Efer::update(|x| x.insert(EferFlags::from_bits_truncate(c)));
+    Cr4::update(|x| x.remove(Cr4Flags::from_bits_truncate(d)));
+    std::hint::black_box((e, f));
+});
+ctx_probe!(ctx_msr_twice, |c, d, e, f| {
+    GsBase::write(VirtAddr::new_truncate(c));
+    KernelGsBase::write(VirtAddr::new_truncate(c));
+    LStar::write(VirtAddr::new_truncate(d));
+    let v = Msr::new(0xc000_0103).read(); // IA32_TSC_AUX: any MSR read between writes
+    std::hint::black_box((e, f, v));
+});
+ctx_probe!(ctx_dr_write, |c, d, e, f| {
+    Dr0::write(c);
+    let x = Dr1::read();
+    Dr7::write_raw(d);
+    std::hint::black_box((e, f, x));
+});
+ctx_probe!(ctx_wi, |c, d, e, f| {
+    let (q, k) = x86_64::instructions::interrupts::without_interrupts(|| c.overflowing_add(d));
+    std::hint::black_box((q.wrapping_add(k as u64), e, f));
+});
+ctx_probe!(ctx_cs_twice, |c, d, e, f| {
+    CS::set_reg(SegmentSelector(c as u16));
+    CS::set_reg(SegmentSelector(c as u16));
+    SS::set_reg(SegmentSelector(d as u16));
+    std::hint::black_box((e, f));
+});
+ctx_probe!(ctx_xcr0, |c, d, e, f| {
+    let x = XCr0::read_raw();
+    std::hint::black_box((x, c, d, e, f));
+});
+
+pub fn run_ctx(out: &mut Out, r: &mut Rng) {
+    type P = fn(u64, u64, u64, u64, u64, u64) -> [u64; 4];
+    let probes: [(&str, P); 10] = [
+        ("port_w32", ctx_port_w32),
+        ("port_w16", ctx_port_w16),
+        ("port_r", ctx_port_r),
+        ("cr4_write", ctx_cr4_write),
+        ("efer_update", ctx_efer_update),
+        ("msr_twice", ctx_msr_twice),
+        ("dr_write", ctx_dr_write),
+        ("wi", ctx_wi),
+        ("cs_twice", ctx_cs_twice),
+        ("xcr0", ctx_xcr0),
+    ];
+    for (name, p) in probes.iter() {
+        for k in 0..6u64 {
+            // carry set / clear, operands with all halves populated
+            let a = if k % 2 == 0 { u64::MAX - r.below(1000) } else { r.below(1 << 40) };
+            let b = 1 + r.below(5000);
+            let (c, d, e, f) = match *name {
+                "port_w32" | "port_w16" | "port_r" => (r.next(), 0x3000 + r.below(0x1000), r.next(), 0x5000 + r.below(0x1000)),
+                "cs_twice" => (((20 + r.below(4000)) << 3) & 0xffff, ((20 + r.below(4000)) << 3) & 0xffff, r.next(), r.next()),
+                _ => (r.next(), r.next(), r.next(), r.next()),
+            };
+            set(Reg::Cr(4), 0);
+            set(Reg::Cr(0), 0);
+            set(Reg::Msr(EFER), 0);
+            cpu::IF.store(1, std::sync::atomic::Ordering::SeqCst);
+            x86_64::registers::rflags::VERIF_IF_OVERLAY.store(2, std::sync::atomic::Ordering::SeqCst);
+            cpu::drain();
+            let got = catch(|| p(a, b, c, d, e, f));
+            x86_64::registers::rflags::VERIF_IF_OVERLAY.store(0, std::sync::atomic::Ordering::SeqCst);
+            let ins = cpu::drain();
+            out.emit(
+                Ev::new("ctx")
+                    .str("name", name)
+                    .words("args", &[a, b, c, d, e, f])
+                    .str("k", if got.is_some() { "ok" } else { "panic" })
+                    .words("got", &got.unwrap_or([0; 4]))
+                    .raw("instrs", &cpu::instrs_json(&ins)),
+            );
         }
     }
 }
